@@ -154,4 +154,30 @@ theorem vox_session_accepted (f : Int → Int) (g : AbsWrite.Geom) (ty : Ty) (on
 
 end Vox
 
+/-! ## non-vacuity -/
+
+def exOne : List LCall := [⟨true, [1000, -2000, 30000, 4, 5, -6], 3⟩]
+def exSplit : List LCall := [⟨true, [1000, -2000], 1⟩, ⟨false, [30000, 4, 5, -6], 4⟩]
+def exGms : AbsWrite.Geom := { word := 0x00010013, ch := 2, sr := 8000 }
+def exGima : AbsWrite.Geom := { word := 0x00020012, ch := 2, sr := 2 ^ 30 }
+
+instance (k : AdpcmEnc.Kind) (major codec : Nat) : Decidable (kindWord k major codec) := by unfold kindWord; cases k <;> infer_instance
+
+/-- the hypotheses of `adpcm_session_accepted` hold for a stereo MS ADPCM WAV job (B = 500 at 8 kHz stereo … the table and `geoOf` agree)
+    and for a stereo IMA AIFF job at 2^30 Hz (the C int product wraps; B = 64) -/
+example : (exGms.ch = 1 ∨ exGms.ch = 2) ∧ kindWord .ms exGms.major exGms.codec ∧ rateOk exGms.major exGms.sr (exGms.sr : Int) = true ∧
+    (∀ c ∈ exOne, c.good exGms.ch) ∧ (∀ c ∈ exSplit, c.good exGms.ch) ∧ samples exSplit = samples exOne ∧
+    exGms.block = (AdpcmEnc.geoOf .ms exGms.sr exGms.ch).spb ∧ exGms.block = 500 ∧
+    kindWord .imaAiff exGima.major exGima.codec ∧ exGima.block = 64 := by decide
+
+def exOneV : List LCall := [⟨true, [256, 512, 768], 3⟩]
+def exSplitV : List LCall := [⟨true, [256], 1⟩, ⟨false, [512, 768], 2⟩]
+def exGv : AbsWrite.Geom := { word := 0x00040021, ch := 1, sr := 8000 }
+def exJobV : BlockJob := voxJob id exGv .s16 exOneV exSplitV (fun _ => []) (fun _ => []) (fun _ n => List.replicate n 0)
+
+/-- VOX: an odd job (3 samples as 1 + 2): hypotheses, and the record evaluated — 2 bytes, F = 4 = N + 1, accepted -/
+example : exGv.ch = 1 ∧ exGv.codec = 0x21 ∧ rateOk exGv.major exGv.sr (exGv.sr : Int) = true ∧
+    (∀ c ∈ exOneV, c.good 1) ∧ (∀ c ∈ exSplitV, c.good 1) ∧ samples exSplitV = samples exOneV ∧
+    exJobV.pred.record.info.frames = 4 ∧ exJobV.pred.record.one.bytes.size = 2 ∧ accepted exJobV.pred.record = true := by decide +kernel
+
 end Sf.C07Bridge2
